@@ -65,6 +65,8 @@ def chain_order(F):
 OK_UNIT = stmt(r"^_0 = Result::<\(\), anyhow::Error>::Ok\(", name="return Ok(())")
 REMOVE = call(r"= std::fs::remove_file::", name="fs::remove_file")
 MOS = [
+    MO("O12.1/limits", "archive header parser: the name buffer is allocated only for 0 < name_len <= MAX_NAME, Ok only for data_len <= MAX_SIZE, file count Ok only for count <= MAX_FILES — proved for all values (DECIDES)",
+       lambda F: limits_decided(F), functions=[("backup.rs", "read_archive_member_header"), ("backup.rs", "read_archive_file_count")]),
     MO("O12.3/chain_order", "restore_from_backup_with_options: for an incremental target the chain pushed along the parent links is reversed exactly once before any archive is verified or extracted, and it is not re-ordered by any other key",
        chain_order, functions=[("backup.rs", "restore_from_backup_with_options")]),
     MO("O12.2/restore_by_id", "restore_from_backup_with_options: whole chain verified < clear (succeeded) < extract; nothing verified after the clear; dry-run extracts nothing",
@@ -84,17 +86,30 @@ MOS = [
              only_via(R + "verify_backup_archive", stmt(r"^_0 = Result::<PathBuf, anyhow::Error>::Ok\(", name="return Ok(path)"), Arm(r"^call Path::exists$", {"otherwise"}, name="archive exists")),
              lambda F: _checksum_operands(F)),
        functions=[("backup.rs", "verify_backup_archive")]),
-    MO("O12.1/header_checks", "read_archive_member_header: name validated and size limits checked before Ok; read_archive_file_count: count limit checked before Ok",
-       allof(only_via("backup::read_archive_member_header", stmt(r"^_0 = Result::<\(String, u64\), anyhow::Error>::Ok\(", name="return Ok((name,len))"),
-                      Arm(r"^discr\(try\(call (backup::)?validate_backup_member_name\)\)$", {"0"}, name="validate_backup_member_name()? -> Ok")),
-             only_via("backup::read_archive_member_header", stmt(r"^_0 = Result::<\(String, u64\), anyhow::Error>::Ok\(", name="return Ok((name,len))"),
-                      Arm(r"^ensure_not\(Le\(call core::num::<impl u64>::from_le_bytes, const (backup::)?MAX_BACKUP_MEMBER_SIZE_BYTES\)\)$", {"0"}, name="data_len <= MAX_BACKUP_MEMBER_SIZE_BYTES")),
-             only_via("backup::read_archive_member_header", call(r"from_elem::<u8>\(", name="allocate name buffer"),
-                      Arm(r"^ensure_not\(Le\(call core::num::<impl u32>::from_le_bytes, const (backup::)?MAX_BACKUP_MEMBER_NAME_BYTES\)\)$", {"0"}, name="name_len <= MAX_BACKUP_MEMBER_NAME_BYTES")),
-             only_via("backup::read_archive_file_count", stmt(r"^_0 = Result::<u32, anyhow::Error>::Ok\(", name="return Ok(count)"),
-                      Arm(r"^ensure_not\(Le\(call core::num::<impl u32>::from_le_bytes, const (backup::)?MAX_BACKUP_ARCHIVE_FILES\)\)$", {"0"}, name="count <= MAX_BACKUP_ARCHIVE_FILES"))),
+    MO("O12.1/header_checks", "read_archive_member_header: the member name is validated (validate_backup_member_name succeeded) before Ok (the size / count limits are decided value-level by O12.1/limits)",
+       allof(only_via_call("backup::read_archive_member_header", stmt(r"^_0 = Result::<\(String, u64\), anyhow::Error>::Ok\(", name="return Ok((name,len))"),
+                           call(r"= (backup::)?validate_backup_member_name\(", name="validate_backup_member_name"),
+                           Arm(r"^discr\(try\(call (backup::)?validate_backup_member_name\)\)$", {"0"}, name="validate_backup_member_name()? -> Ok"))),
        functions=[("backup.rs", "read_archive_member_header"), ("backup.rs", "read_archive_file_count")]),
 ]
+
+
+def limits_decided(F):
+    """The archive header parser accepts a member / a file count only inside the documented limits — as DECIDES
+    obligations over (name_len, data_len, count) and the three limit constants (for all values)."""
+    from vlib import mirdec as MD
+    out = []
+    atoms = [("name_len", r"^call core::num::<impl u32>::from_le_bytes$"), ("data_len", r"^call core::num::<impl u64>::from_le_bytes$"),
+             ("max_name", r"^const (backup::)?MAX_BACKUP_MEMBER_NAME_BYTES$"), ("max_size", r"^const (backup::)?MAX_BACKUP_MEMBER_SIZE_BYTES$")]
+    oc = {"ok": stmt(r"^_0 = Result::<\(String, u64\), anyhow::Error>::Ok\(", name="return Ok((name, len))"), "alloc": call(r"from_elem::<u8>\(", name="allocate the name buffer")}
+    out += MD.decides(F, "backup::read_archive_member_header", "entry", {"alloc": oc["alloc"]}, atoms, {"alloc": ("=>", "(and (> name_len 0) (<= name_len max_name))")},
+                      what="read_archive_member_header allocates the name buffer only for 0 < name_len <= MAX_BACKUP_MEMBER_NAME_BYTES")
+    out += MD.decides(F, "backup::read_archive_member_header", call(r"from_elem::<u8>\(", name="after the name buffer"), {"ok": oc["ok"]}, atoms, {"ok": ("=>", "(<= data_len max_size)")},
+                      what="read_archive_member_header returns Ok only for data_len <= MAX_BACKUP_MEMBER_SIZE_BYTES")
+    atoms = [("count", r"^call core::num::<impl u32>::from_le_bytes$"), ("max_files", r"^const (backup::)?MAX_BACKUP_ARCHIVE_FILES$")]
+    out += MD.decides(F, "backup::read_archive_file_count", "entry", {"ok": stmt(r"^_0 = Result::<u32, anyhow::Error>::Ok\(", name="return Ok(count)")}, atoms, {"ok": ("=>", "(<= count max_files)")},
+                      what="read_archive_file_count returns Ok only for count <= MAX_BACKUP_ARCHIVE_FILES")
+    return out
 
 
 def _checksum_operands(F):
